@@ -296,7 +296,16 @@ pub fn run_lib(sc: &Scenario) -> Observation {
     )];
     let _ = std::fs::remove_dir_all(&work);
     let _ = std::fs::remove_dir_all(&tmp);
-    verif_sim::drain();
+    // (the simulator stops a run that never ends also here: by unwinding)
+    if let Err(payload) = std::panic::catch_unwind(AssertUnwindSafe(verif_sim::drain)) {
+        if obs.sim_abort.is_none() {
+            obs.sim_abort = Some(match payload.downcast_ref::<SimAbort>() {
+                Some(SimAbort::HangForever(s)) => format!("hang_forever:{}", s),
+                Some(SimAbort::EventCap) => "event_cap".into(),
+                None => "drain panicked".into(),
+            });
+        }
+    }
     if let Some(rec) = verif_sim::uninstall() {
         obs.log = rec.log;
         obs.tape = rec.tape;
